@@ -113,6 +113,15 @@ VF_HARNESS(reinterpret_trailing_dimension) {   // reinterpret_array_cast<U>(n): 
   L i[D]; arbitrary_index(s, i); L c = spec_addr(s, i); L j = vf_range(0, 1);
   vf_assert(&at_plus(r, i, j, std::make_index_sequence<D>{}) == reinterpret_cast<int const*>(&g_e[c]) + j, "trailing index j designates the j-th U inside the element");
   vf_assert(at_plus(r, i, j, std::make_index_sequence<D>{}) == (j == 0 ? 100 + c : 200 + c), "and reads its value");
+  { auto rr = v().reinterpret_array_cast<int>(2);       // the && overload (a temporary view)
+    L sz[D + 1]; tuple_to_array_(rr.sizes(), sz, std::make_index_sequence<D + 1>{});
+    bool ok = sz[D] == 2;
+#pragma unroll
+    for(int k = 0; k < D; ++k) ok = ok && sz[k] == s.d[k].size;
+    vf_assert(ok, "rvalue reinterpret_array_cast<U>(n) keeps the extents and adds a trailing dimension of size n");
+    vf_assert(&at_plus(rr, i, j, std::make_index_sequence<D>{}) == reinterpret_cast<int const*>(&g_e[c]) + j, "rvalue form: trailing index j designates the j-th U inside the element");
+    auto rm = std::move(v).reinterpret_array_cast<int>(2);
+    vf_assert(rm.layout() == rr.layout() && rm.base() == rr.base(), "std::move(view) form gives the same view"); }
   vf_reach("reinterpret_trailing_dimension");
 }
 VF_HARNESS(construct_array_from_projection) {   // array<long,D>(projection view) converts element by element, same extents
